@@ -124,6 +124,9 @@ type Chain struct {
 	Proposer int
 	// VoteFlags lets a test mark validators as absent in DecidedLastCommit (index by validator).
 	Absent map[int]bool
+	// replica mode (see replicas.go)
+	twins   []*band.BandApp
+	tainted bool
 }
 
 var (
@@ -200,8 +203,12 @@ func New(cfg Config, slot int) (c *Chain, err error) {
 		cfg.GovVoting = 10 * time.Second
 	}
 	home := homeFor(slot)
-	app := band.NewBandApp(log.NewNopLogger(), cosmosdb.NewMemDB(), nil, true, map[int64]bool{}, home,
-		sims.EmptyAppOptions{}, 100, baseapp.SetChainID(cfg.ChainID))
+	build := func(home string) *band.BandApp {
+		return band.NewBandApp(log.NewNopLogger(), cosmosdb.NewMemDB(), nil, true, map[int64]bool{}, home,
+			sims.EmptyAppOptions{}, 100, baseapp.SetChainID(cfg.ChainID))
+	}
+	app := build(home)
+	var files [][]byte
 	c = &Chain{App: app, Cfg: cfg, Home: home, byAddr: map[string]*Account{}, Absent: map[int]bool{}}
 
 	gs := band.NewDefaultGenesisState(app.AppCodec())
@@ -307,12 +314,14 @@ func New(cfg Config, slot int) (c *Chain, err error) {
 	}
 	fc := filecache.New(home + "/files")
 	for i, ds := range cfg.DataSources {
+		files = append(files, ds.Exec)
 		h := fc.AddFile(ds.Exec)
 		tre := c.Users[ds.Treasury%len(c.Users)]
 		og.DataSources = append(og.DataSources, oracletypes.NewDataSource(c.Users[0].Addr, fmt.Sprintf("ds%d", i+1), "", h, ds.Fee, tre.Addr))
 	}
 	for i, raw := range cfg.Scripts {
 		comp := CompileWasm(raw)
+		files = append(files, comp)
 		h := fc.AddFile(comp)
 		og.OracleScripts = append(og.OracleScripts, oracletypes.NewOracleScript(c.Users[0].Addr, fmt.Sprintf("os%d", i+1), "", h, "", ""))
 	}
@@ -364,12 +373,20 @@ func New(cfg Config, slot int) (c *Chain, err error) {
 	if err != nil {
 		return nil, err
 	}
-	_, err = app.InitChain(&abci.RequestInitChain{
-		Time: cfg.GenesisTime, ChainId: cfg.ChainID, ConsensusParams: DefaultConsensusParams,
-		Validators: []abci.ValidatorUpdate{}, AppStateBytes: stateBytes, InitialHeight: 1,
-	})
-	if err != nil {
+	initChain := func(a *band.BandApp) error {
+		_, err := a.InitChain(&abci.RequestInitChain{
+			Time: cfg.GenesisTime, ChainId: cfg.ChainID, ConsensusParams: DefaultConsensusParams,
+			Validators: []abci.ValidatorUpdate{}, AppStateBytes: stateBytes, InitialHeight: 1,
+		})
+		return err
+	}
+	if err = initChain(app); err != nil {
 		return nil, fmt.Errorf("InitChain: %w", err)
+	}
+	if Replicas > 1 {
+		if err = c.newTwins(stateBytes, slot, files, build, initChain); err != nil {
+			return nil, fmt.Errorf("InitChain (replica): %w", err)
+		}
 	}
 	c.Height = 0
 	c.Time = cfg.GenesisTime
@@ -384,6 +401,9 @@ func New(cfg Config, slot int) (c *Chain, err error) {
 func (c *Chain) Close() {
 	if c != nil && c.App != nil {
 		_ = c.App.Close()
+		for _, t := range c.twins {
+			_ = t.Close()
+		}
 	}
 }
 
@@ -439,16 +459,24 @@ func (c *Chain) Block(txs [][]byte, dt time.Duration) (res *BlockResult, err err
 	}
 	hash := make([]byte, 32)
 	copy(hash, fmt.Sprintf("blk-%d-%d", h, t.UnixNano()))
-	resp, err := c.App.FinalizeBlock(&abci.RequestFinalizeBlock{
+	req := &abci.RequestFinalizeBlock{
 		Height: h, Time: t, Txs: txs, Hash: hash, ProposerAddress: proposer,
 		DecidedLastCommit: abci.CommitInfo{Votes: votes}, NextValidatorsHash: hash,
-	})
+	}
+	resp, err := finalizeRecover(c.App, req)
 	if err != nil {
+		if _, isPanic := err.(*PanicError); isPanic {
+			obs.fail("C02/panic", "height %d: node panic while executing the block: %v", h, err)
+		} else {
+			obs.fail("C02/finalize-error", "height %d: FinalizeBlock returned an error (the node cannot produce the block): %v", h, err)
+		}
 		return nil, err
 	}
 	if _, err := c.App.Commit(); err != nil {
 		return nil, err
 	}
+	c.observeBlock(txs, resp)
+	c.runTwins(req, resp)
 	c.Height, c.Time, c.AppHash = h, t, resp.AppHash
 	c.resync()
 	return &BlockResult{Resp: resp, Height: h, Time: t}, nil
@@ -468,6 +496,7 @@ func (c *Chain) Ctx() sdk.Context {
 
 // WriteCtx returns a context whose writes go straight to the root store (set-up steps only).
 func (c *Chain) WriteCtx() sdk.Context {
+	c.taint() // direct writes reach the primary only: replicas stop being comparable
 	return c.App.NewUncachedContext(false, cmtproto.Header{Height: c.Height, Time: c.Time, ChainID: c.Cfg.ChainID})
 }
 
